@@ -64,6 +64,9 @@ def plans_from_tlc(run):
                     continue
                 plans[json.dumps(plan)] = plan
     plans[json.dumps(["after", "rename"])] = ["after", "rename"]
+    # kills right after an interior 0x2e byte of the payload (the same byte ends every pickle: a truncated file can look finished)
+    for j in (1, 2, 3):
+        plans[json.dumps(["afterbyte", 46, j])] = ["afterbyte", 46, j]
     plans[json.dumps(["before", "close"])] = ["before", "close"]
     return list(plans.values())
 
@@ -214,6 +217,10 @@ def run(run):
         for split in (True, False):
             for scenario in ("new", "overwrite", "improved"):
                 jobs.append((plan, split, scenario))
+    if not quick:
+        # every byte offset of the payload (offsets beyond its length do not crash)
+        for k in range(0, 400):
+            jobs.append((["offset", k], k % 2 == 0, "new" if k % 3 else "overwrite"))
     if quick:
         keep = [j for j in jobs if j[2] == "overwrite" and j[1]] + rng.sample([j for j in jobs if not (j[2] == "overwrite" and j[1])], 10)
         jobs = keep
